@@ -73,8 +73,8 @@ func (p *parser) parse() (e *expr.Expression, err error) {
 			}
 
 			// edge case for a single literal in the expression and a default field specified
-			if final.Op == expr.Literal && p.defaultField != "" {
-				final = expr.Expr(p.defaultField, expr.Equals, final.Left)
+			if (final.Op == expr.Literal || final.Op == expr.Wild || final.Op == expr.Regexp) && p.defaultField != "" {
+				final = expr.Expr(p.defaultField, expr.Equals, final)
 			}
 
 			return final, nil
